@@ -773,6 +773,8 @@ def run(ctx):
     for fam, cases in fams:
         if only and fam not in only.split(","):
             continue
+        for c in (cases[0], cases[len(cases) // 2], cases[-1])[:2 if fam != "bf" else 3]:
+            ctx.sample({"case": c.cid, "class": c.cls, "unit_head": FAMILIES[fam]([c])[0].replace(CB_DECL, "")[:400]}, limit=14)
         if fam == "va":
             stats["skipped"] += (len(VA_KINDS) - 1) * len(VA_CTX)
         run_family(ctx, fam, cases, stats)
@@ -780,6 +782,14 @@ def run(ctx):
               rejected_or_crashed=stats["rejected"],
               rule="one case = one generated type/function shape with a stable id; evaluated = one store/copy/creation observed by the driver; "
                    "non-trivial = the case ran and at least one observation was judged against the dictionary")
+    ctx.cover(bounds="(a) 241 (base type,width) pairs [9 types, _Bool width 1] x preceding unsigned long bit-field of width 0..63; x {char,short,int,uchar+ushort} "
+                     "ordinary neighbours; x unnamed preceding bit-field of width 0,1,7,33; x {global '.', anonymous struct, union, nested struct, array element, "
+                     "automatic copy} for %s; thorough adds every pair as pre and as post (241x241, 3x241x241). Per struct: 3 backgrounds x (15 stored values + 6 old values "
+                     "x (5 op= x 6 operands + 2 shifts x 4 counts + 4 inc/dec)) + neighbour stores. "
+                     "(b) 10 member mixes x payload 1..40 x 12 ways. (c) all shapes of depth 1..3 over {struct, union, array[3], struct+anonymous struct, "
+                     "struct+anonymous union, union+anonymous struct} x leaf-type phases x {global, file-scope literal, block-scope literal}; 4 store spellings, 3 read spellings. "
+                     "(d) all multisets of 1..4 locals from 13 kinds%s, both stack parities mod 32. (e) 4 kinds x 13 contexts x 10 sizes. (f) 10 forms x sizes 1..40."
+                     % ("4 preceding widths x 13+ field widths" if ctx.tier == "quick" else "all 64 preceding widths x all widths", "" if ctx.tier == "quick" else " in both declaration orders"))
     for k, v in stats.items():
         if k.startswith("fam_"):
             ctx.cover(**{"cases_" + k[4:]: v})
@@ -789,4 +799,5 @@ def run(ctx):
         raise core.HarnessError("vacuous: nothing evaluated")
     ctx.assume("plain char/short/int/long bit-fields are signed (implementation-defined, 6.7.2p5); out-of-range stores to signed fields wrap modulo 2^width")
     ctx.assume("arrays and VLAs of >= 16 bytes and alloca blocks are 16-byte aligned (x86-64 psABI 3.1.2)")
+    ctx.assume("padding bits/bytes and the inactive members of a union are not judged after a store (6.2.6.1p6-7); the differential discovery of a field's bit set assumes the all-ones/zero stores themselves leave padding alone")
     ctx.assume("the assembler, linker, gcc-compiled driver and CPU are trusted; layout agreement with gcc is property C08, not judged here")
